@@ -53,6 +53,27 @@ def run(tier, seed, replay=None):
                                    "source": p["src"], "collected_by_the_consumer": got[:600], "required": want[:600], "run": k,
                                    "how_to_replay": "vm.Execute(source) repeatedly with runtime.GOMAXPROCS in {1,2,3,4,8,16}; schedule dependent"})
                 break
+        # fan-in programs: every run's collected list judged by the extracted verdict fanin_ok (Chan/FanIn.v)
+        fans = meta.get("fans") or []
+        flines = common.run_driver(driver, os.path.join(scratch, "fan.sx")) if fans else []
+        fi, fan_runs, fan_bad = 0, 0, 0
+        for f in fans:
+            for k, got in enumerate(f["runs"]):
+                verdict = flines[fi].strip()
+                fi += 1
+                fan_runs += 1
+                if verdict == "(ok)":
+                    continue
+                fan_bad += 1
+                nbad += 1
+                if len(res.violations) < 8:
+                    sent = sum(f["ns"])
+                    res.violation({"property": PID, "kind": "several producers into one channel: the consumer did not receive every value exactly once in each producer's order"
+                                   if got.startswith("(") else "a fan-in run did not finish: " + got[:200],
+                                   "source": f["src"], "values_sent": sent, "values_collected": len(got.strip("()").split()) if got.startswith("(") else None,
+                                   "collected_by_the_consumer": got[:400], "model_verdict": verdict, "run": k,
+                                   "how_to_replay": "vm.Execute(source) repeatedly with runtime.GOMAXPROCS in {1,2,3,4,8,16}; schedule dependent"})
+                break
         # directed expectations on the implementation
         sf = os.path.join(scratch, "expect.json")
         json.dump([e[0] for e in EXPECT], open(sf, "w"))
@@ -76,10 +97,14 @@ def run(tier, seed, replay=None):
                            "extracted channel machine entry c16" % meta["runs_per_program"],
             "trusted_base": common.TRUSTED_COMMON + ["the Go runtime's scheduler decides which schedules are exercised: the runs sample them, the theorems on the "
                                                      "abstract machine cover all of them", "an unbuffered channel is modelled with one slot"],
-            "evaluations": runs + len(EXPECT), "distinct_nontrivial": len(set(p["src"] for p in meta["programs"] if p["items"])),
+            "fan_in_programs": len(fans), "fan_in_runs": fan_runs, "fan_in_bad": fan_bad,
+            "fan_in_shapes": sorted(set("%d producers/cap %d" % (len(f["ns"]), f["cap"]) for f in fans)),
+            "evaluations": runs + fan_runs + len(EXPECT), "distinct_nontrivial": len(set(p["src"] for p in meta["programs"] if p["items"])),
             "rule": "random pipelines: 0-4 mapping stages (x, x+1, x*2, x-3, -x), channel capacities 0-5, element types int64 / interface / float64, "
                     "0-40 items, producer as for-in, counted loop, `go produce(ch, items...)` (variadic + spread) or `go produce(ch, items)` with the list reassigned afterwards, stages as anonymous or named functions started with arguments, consumer as for-in, two-value receive statement or receive expression until nil; "
-                    "each run repeatedly; the collected list must equal the channel machine's; plus %d directed programs (close semantics, conversion, go "
+                    "each run repeatedly; the collected list must equal the channel machine's; fan-in programs (2-4 producers of 0-300 values each, named or "
+                    "anonymous, into one channel of capacity 0-5, a closer goroutine, one consumer; three heavy ones: 4 x 1500 values through one slot) run "
+                    "repeatedly and judged by the extracted verdict fanin_ok; plus %d directed programs (close semantics, conversion, go "
                     "argument evaluation, FIFO)" % len(EXPECT),
             "programs": len(meta["programs"]), "runs": runs, "bad_runs": nbad, "directed_mismatches": nexp, "shapes": shapes,
             "samples": [{"src": p["src"], "runs": p["runs"][:2]} for p in meta["programs"][:2]], "make_ok": ok_make,
